@@ -56,6 +56,7 @@ type Explorer struct {
 	MapPerms         int // permute map iteration for maps up to this many entries
 	PanicIsViolation bool
 	SprintfMax       int
+	PermuteIn        map[string]bool
 	SymIndex         bool
 	Deadlocks        map[string]int
 	Deadline         time.Time
@@ -100,7 +101,7 @@ func NewExplorer(p *Program, harness string, s *Solver) *Explorer {
 	return &Explorer{Prog: p, Harness: harness, Solver: s, MaxLoop: 20000, MaxSteps: 8000000, MaxPaths: 5000000,
 		IfConvert: true, MapPerms: 0, PanicIsViolation: true,
 		Aborted: map[string]int{}, AbortSamples: map[string]string{}, ReachedAll: map[string]int{}, AssertSeen: map[string]int{},
-		Deadlocks: map[string]int{}, SprintfMax: 2,
+		Deadlocks: map[string]int{}, SprintfMax: 2, PermuteIn: map[string]bool{},
 		Recovered: map[string]int{}, Funcs: map[*ssa.Function]int{}}
 }
 
